@@ -679,6 +679,12 @@ func (e *Engine) assert(c *Term, msg string, knownID string, guard *Term) {
 		e.res.Stats.AssertsTrivial++
 		return
 	}
+	if c.IsFalse() && knownID != "" && guard != nil && guard.IsTrue() && e.opts.KnownFindings[knownID] {
+		e.res.Stats.Asserts++
+		e.res.Stats.AssertsSat++
+		e.res.Known = append(e.res.Known, Violation{Harness: e.harness, Kind: "assert", Msg: msg, Model: e.modelMap(e.model), Known: knownID, Observed: e.snapshotObserved(e.model)})
+		panic(pathEnd{kind: endInfeasible})
+	}
 	if c.IsFalse() {
 		e.res.Stats.Asserts++
 		e.res.Stats.AssertsSat++
